@@ -3,6 +3,18 @@
 import json, subprocess
 
 CHECKS = {
+ "C13": dict(level="exploration", design="5/C13", technique="exhaustive enumeration of all 2^32 payload IDs and per-field-complete OTI grid against reference layouts",
+   text="Every 4-byte payload ID (thorough: all 2^32; quick: 8 SBNs x all 2^24 ESIs) is parsed, read back and re-serialised and compared with the RFC layout written independently; OTI fields are each enumerated over their whole width against three backgrounds, packets over payload lengths 0..=300 and 65535.",
+   note="The 88-bit OTI space is covered per field (each output byte is a function of one field, which the grid verifies lane by lane), not as a product. Big-endian RFC 3.2/3.3 layout as written in rfcref."),
+ "C14": dict(level="exploration", design="5/C14", technique="complete breakpoint grid (P x F x WS) against a u128 reference of RFC 6330 4.3, plus public-API binding and round trips",
+   text="Every point of a grid built from the breakpoints of the derivation (all n/K' thresholds of the memory budget, 2^32 quotient boundaries, block-count limits) is derived by the real code and by an independent u128 reference and must agree wherever a valid configuration exists; Z must be monotone in the budget; derived configurations round-trip through Encoder/Decoder.",
+   note="F and WS between breakpoints are not enumerated (the derivation is piecewise constant); Al=SS=8 for P>=64 else 1 is taken as the implementation's documented choice."),
+ "C15": dict(level="exploration", design="5/C15", technique="exhaustive enumeration of all K and all (K',X) tuples in the release and the overflow-checking build against an independent reference",
+   text="All K in 0..=56403 and (thorough) all ~8*10^9 (K', X) pairs are pushed through the real tuple generator in both overflow-check settings and compared with an independent Rand/Deg/Tuple; the algebraically solved y+i wrap-around inputs come first and also go through repair_packets / decode.",
+   note="Reference tables V0-V3, Table 2, degree table are transcribed from the pinned commit (no RFC copy on the image). Quick tier covers 16 of the 477 K' completely."),
+ "C19": dict(level="exploration", design="5/C19", technique="complete grid T x Z x boundary-F x Al against a u128 acceptance predicate",
+   text="Every T (thorough: all 65535) x every Z x every F adjacent to a limit or to a 2^32 multiple of the symbol count x alignment classes is passed to the real constructor under catch_unwind; accept/refuse must equal the documented predicate evaluated in u128 and accepted values must be echoed.",
+   note="F off the boundary sets is not enumerated; limits are those documented on the constructor (errata 5548 and 4.4.1.2)."),
  "C10": dict(level="exploration", design="5/C10", technique="exhaustive enumeration of the finite domain (256^2 pairs, 256^3 triples, all table entries) against a shift-and-xor reference",
    text="Complete enumeration of the whole finite input domain of the field arithmetic and of every derived table entry against an independent polynomial-arithmetic reference; exhaustive, so the property is decided outright for this build.",
    note="Trusts only the field polynomial 0x11D / generator 2 (the reference checks that 2 generates all 255 units)."),
